@@ -287,7 +287,7 @@ func run(c *mon.Ctx) {
 		}
 	})
 	// the relations follow the current field values: compare, change a field through a setter, compare again
-	c.Stream("after-setters", c.N(3000, 500000), func(i int, r *gen.Rand) {
+	c.Stream("after-setters", c.N(3000, 10000000), func(i int, r *gen.Rand) {
 		a := attrs{Type: r.PickByte([]byte{0x35, 0x37, 0x31, 0x34, 0x11, 0x41}), Event: uint32(1 + r.Intn(2)), PTS: uint64(1000 + 1000*r.Intn(2)), HasPTS: true, SegNum: byte(1 + r.Intn(2)), SegExp: byte(1 + r.Intn(2)), Noise: r.Uint32() | 1, Carrier: r.Intn(3)}
 		b := attrs{Type: r.PickByte([]byte{0x34, 0x36, 0x30, 0x10, 0x40, 0x3c, 0x44}), Event: uint32(1 + r.Intn(2)), PTS: uint64(1000 + 1000*r.Intn(2)), HasPTS: true, SegNum: 1, SegExp: 1, Noise: r.Uint32() | 1, Carrier: r.Intn(3)}
 		da, db := mk(a), mk(b)
